@@ -25,6 +25,16 @@ L3: the property statement evaluated on the real code, independent of the Lean m
     the model function is observed): at p, at p with times × cT, rates × cR, selection × cG (sizes fixed: the reference-size convention)
     and additionally sizes × cS; every numeric keyword of every recorded call must scale by the factor of the family its name
     expects (nu*: cS, T: cT, m<ij>: cR, gamma*: cG, h*/f*/beta: 1; a size function f: f'(cT t) = cS f(t)).
+    Round 5, value-dependent branches: every model ON the boundaries where a comparison between parameters can flip and just
+    off them — for every pair of parameters of one family (nuX0/nuX, nu1/nu2, m12/m21, T1/T2, T/Ts, …) one pair at a time
+    (b := a exactly vs b := a(1 ± 1e-9)), and every time / rate / selection parameter at 0 vs 1e-9: (i) the arguments the real
+    function passes to the primitives (integrators stubbed) must not jump across the equality (a constant size vs the samples of
+    a size function), (ii) where the calls change shape across the equality (another call sequence, a constant instead of a
+    function: a value-dependent branch — found by observation, not from the source) and on a sample of the other pairs the
+    spectrum itself must be continuous (<= 1e-5 of the largest entry, far below the splitting error, far above the 1e-9 step);
+    (iii) the label-permutation oracle and the nesting pairs are evaluated at such points as well (all branch boundaries and their
+    images under the permutation, a sample of the others); K: the comparisons of the Lean trace of a model (op c15.boundary) vs the
+    pairs at which the real calls change shape.
 """
 import inspect, importlib, json, math, re, time
 import numpy as np
@@ -695,9 +705,24 @@ def compare_pair(chk, ctx, ma, mb, a, b, va, vb, ns, pts, group, inp):
         chk.fail('%s->%s:nesting' % (a, b),
                  '%s%r and %s%r differ by %.3e (scale %.3e) at the nesting point (%s)' % (a, va, b, vb, err, scale, group), inp)
 
-def nesting_check(chk, ctx, byname, group, a, b, args, rng, reps=1, args_b=None, conds=()):
+def env_boundaries(ma, mb, args, args_b, names):
+    """pairs of free parameters of a nesting pair to be made equal: first those that put model `a` or `b` on one of its branch
+    boundaries (found by boundary_scan), then the other pairs of one family"""
+    first = []
+    for mm, aa in ((ma, args), (mb, args_b)):
+        pos = {n: (e[1] if e[0] == 'p' else None) for n, e in zip(mm['pn'], aa)}
+        for (u, v) in mm.get('bflag', {}):
+            if u is None: continue
+            x, y = pos.get(u), pos.get(v)
+            if x and y and x != y and (x, y) not in first and (y, x) not in first: first.append((x, y))
+    rest = [(x, y) for i, x in enumerate(names) for y in names[i + 1:]
+            if kind(x) == kind(y) and kind(x) != 'other' and (x, y) not in first and (y, x) not in first]
+    return first, rest
+
+def nesting_check(chk, ctx, byname, group, a, b, args, rng, reps=1, args_b=None, conds=(), boundary=0):
     """model `a` at the argument expressions `args` vs model `b` at `args_b` (default: b's own parameters), the free parameters
-    drawn in the documented bounds (distinct, non-zero: two selection coefficients are different) such that `conds` hold"""
+    drawn in the documented bounds (distinct, non-zero: two selection coefficients are different) such that `conds` hold;
+    `boundary` further draws (plus one per branch boundary of either model) with two free parameters of one family made equal"""
     ma, mb = byname.get(a), byname.get(b)
     if ma is None or mb is None:
         chk.broken.append('model: nesting pair %s -> %s names a model that does not exist' % (a, b)); return
@@ -706,15 +731,19 @@ def nesting_check(chk, ctx, byname, group, a, b, args, rng, reps=1, args_b=None,
         chk.stat('nesting:skipped(model does not run)'); return           # reported by the per-model run
     if args_b is None: args_b = [['p', n] for n in mb['pn']]
     names = free_params(list(args) + list(args_b))
-    for _ in range(reps):
+    first, rest = env_boundaries(ma, mb, args, args_b, names) if boundary else ([], [])
+    equalise = [None] * reps + first + [rest[int(i)] for i in list(rng.permutation(len(rest)))[:boundary]]
+    for eq in equalise:
         env = None
         for _try in range(20):
             cand = draw(rng, names, edge=False)
+            if eq is not None: cand[eq[1]] = cand[eq[0]]
             try:
                 if conds_hold(conds, cand): env = cand; break
             except Stuck as e:
                 chk.broken.append('model: nesting pair %s -> %s: %s' % (a, b, e)); return
         if env is None:
+            if eq is not None: chk.stat('nesting:boundary_outside_branch'); continue
             chk.broken.append('model: nesting pair %s -> %s: the branch conditions were not met in 20 draws' % (a, b)); return
         try:
             pb = dict(zip(mb['pn'], pair_args(args_b, env)))
@@ -722,14 +751,16 @@ def nesting_check(chk, ctx, byname, group, a, b, args, rng, reps=1, args_b=None,
             if lam < 1:
                 for n in env:
                     if kind(n) == 'time': env[n] = coarse(env[n] * lam)
+                if eq is not None: env[eq[1]] = env[eq[0]]
                 if not conds_hold(conds, env): continue
             va = pair_args(args, env); vb = pair_args(args_b, env)
         except Stuck as e:
             chk.broken.append('model: nesting pair %s -> %s: %s' % (a, b, e)); return
         ns = ns_for(rng, d, mb); pts = int(PTS[int(rng.integers(2))])
         inp = dict(kind='nesting', group=group, a=a, b=b, args=args, args_b=args_b, env=env, ns=list(ns), pts=pts)
+        if eq is not None: inp['equal'] = list(eq)
         compare_pair(chk, ctx, ma, mb, a, b, va, vb, ns, pts, group, inp)
-        chk.stat('nesting:' + group)
+        chk.stat('nesting:' + group + (':on_boundary' if eq is not None else ''))
 
 def swap_err(dadi, m, v, vs, ns, pts, tf):
     I = dadi.Integration; old = I.timescale_factor
@@ -872,6 +903,248 @@ def perm_check(chk, ctx, byname, name, perm, args, rng, draws=1):
             chk.fail('%s:perm:not_decreasing' % name, 'label-permutation difference of %s under %r does not shrink with the time step: %.3e at '
                      'timescale_factor=1e-3, %.3e at 1e-4' % (name, list(perm), e1, e2), inp); return
         chk.stat('perm:ratio_%d' % int(round(min(e1 / e2, 99))))
+
+# ----------------------------------------------------------------------------------------------- value-dependent branches
+BOUNDARY_EPS = 1e-9          # relative (absolute at 0) step off a boundary
+BOUNDARY_ARG_TOL = 1e-6      # arguments of the primitives across a boundary: |difference| <= tol * max(1, |value|)
+BOUNDARY_FS_TOL = 1e-5       # spectrum across a boundary, relative to its largest entry (splitting error: 1e-4 .. 1e-2)
+
+def boundaries_of(m):
+    """the places where a comparison between parameters can flip: (a, b) = two parameters of one family made equal (b := a),
+    (None, b) = a time, rate or selection parameter at 0"""
+    pn = m['pn']; out = []
+    for i, a in enumerate(pn):
+        for b in pn[i + 1:]:
+            if kind(a) == kind(b) and kind(a) != 'other': out.append((a, b))
+    for b in pn:
+        if kind(b) in ('time', 'mig', 'sel'): out.append((None, b))
+    return out
+
+def bkey(a, b):
+    return '%s==%s' % (a if a is not None else '0', b)
+
+def boundary_regime(rng, m, d):
+    """a generic point: moderate, distinct, non-zero values; short epochs for three populations"""
+    nT = max(1, sum(1 for n in m['pn'] if kind(n) == 'time'))
+    tot = (0.15, 0.3) if d >= 3 else (0.3, 0.8)
+    p = {}
+    for n in m['pn']:
+        k = kind(n)
+        if k == 'size': p[n] = coarse(math.exp(rng.uniform(math.log(0.5), math.log(2.0))))
+        elif k == 'time': p[n] = coarse(rng.uniform(*tot) / nT)
+        elif k == 'mig': p[n] = coarse(rng.uniform(0.5, 2.5))
+        elif k == 'sel': p[n] = coarse(rng.uniform(0.3, 1.0) * (1 if rng.random() < 0.5 else -1))
+        else: p[n] = coarse(rng.uniform(0.2, 0.8))
+    return p
+
+def on_boundary(p, a, b):
+    q = dict(p); q[b] = p[a] if a is not None else 0.0
+    return q
+
+def off_boundary(p, a, b, sign):
+    q = dict(p)
+    q[b] = p[a] * (1.0 + sign * BOUNDARY_EPS) if a is not None else sign * BOUNDARY_EPS
+    return q
+
+def off_signs(a, b):
+    """both sides of an equality; a time or a rate at 0 has one side inside the documented bounds"""
+    return (1, -1) if (a is not None or kind(b) == 'sel') else (1,)
+
+def call_shape(calls):
+    def tp(v):
+        if callable(v): return 'function'
+        if isinstance(v, bool) or v is None: return repr(v)
+        if isinstance(v, (int, float)): return 'number'
+        return type(v).__name__
+    return [(c['fn'], tuple((k, tp(v)) for k, v in c['args'].items())) for c in calls]
+
+def args_jump(c0, c1):
+    """keywords of one call whose values differ across the boundary: [(keyword, description at the boundary, description off it)]"""
+    out = []
+    for k, v in c0['args'].items():
+        w = c1['args'].get(k)
+        if isinstance(v, bool) or isinstance(w, bool): continue
+        fv, fw = callable(v), callable(w)
+        sv = c0['sampled'].get(k, ([], []))[1]; sw = c1['sampled'].get(k, ([], []))[1]
+        def close(x, y):
+            try: x = float(x); y = float(y)
+            except Exception: return False
+            return abs(x - y) <= BOUNDARY_ARG_TOL * max(1.0, abs(x), abs(y))
+        if fv and fw:
+            if sv and sw and len(sv) == len(sw) and not all(close(x, y) for x, y in zip(sv, sw)):
+                out.append((k, 'a function of time with values %r' % (sv,), 'a function of time with values %r' % (sw,)))
+        elif fv != fw:
+            num, vals = (w, sv) if fv else (v, sw)
+            if isinstance(num, (int, float)) and vals and not all(close(num, x) for x in vals):
+                out.append((k, ('a function of time with values %r' % (sv,)) if fv else 'the constant %r' % (v,),
+                            ('a function of time with values %r' % (sw,)) if fw else 'the constant %r' % (w,)))
+        elif isinstance(v, (int, float)) and isinstance(w, (int, float)):
+            if not close(v, w): out.append((k, repr(v), repr(w)))
+    return out
+
+def boundary_args_check(chk, ctx, m, p, a, b, ns):
+    """L3 (i) on the calls the real function makes (integrators stubbed): at the boundary vs just off it, each side.
+    Returns the kind of shape change across the boundary (None: the same calls with arguments of the same type)"""
+    name = m['name']; peq = on_boundary(p, a, b)
+    inp = dict(kind='boundary', model=name, params=peq, pair=[a, b], ns=list(ns), pts=12)
+    try:
+        base = stub_calls(ctx, m, peq, ns)
+    except Exception as e:
+        chk.fail('%s:boundary:%s' % (name, type(e).__name__), '%s%r (on the boundary %s, integrators stubbed) raises %r' % (name, vec(m, peq), bkey(a, b), e), inp)
+        return None
+    shape = None
+    for sg in off_signs(a, b):
+        q = off_boundary(p, a, b, sg)
+        try:
+            off = stub_calls(ctx, m, q, ns)
+        except Exception as e:
+            chk.fail('%s:boundary:%s' % (name, type(e).__name__), '%s%r (just off the boundary %s) raises %r' % (name, vec(m, q), bkey(a, b), e), inp)
+            continue
+        chk.l3((name, 'boundary_args', a, b))
+        if [c['fn'] for c in base] != [c['fn'] for c in off]:
+            shape = 'sequence'; continue
+        if call_shape(base) != call_shape(off): shape = shape or 'type'
+        for i, (c0, c1) in enumerate(zip(base, off)):
+            if '__bind_error__' in c0['args'] or '__bind_error__' in c1['args']: continue
+            for k, v0, v1 in args_jump(c0, c1):
+                chk.fail('%s:boundary:%s:%s' % (name, c0['fn'], k),
+                         '%s%r, on the boundary %s: call %d, %s keyword %s receives %s; at %s = %r (a relative step of %g off the boundary) it '
+                         'receives %s — the argument jumps across the equality, the model is not continuous there'
+                         % (name, vec(m, peq), bkey(a, b), i, c0['fn'], k, v0, b, q[b], BOUNDARY_EPS, v1), inp)
+    return shape
+
+def rel_diff(fa, fb):
+    da = np.asarray(fa.data, dtype=float); db = np.asarray(fb.data, dtype=float); mk = ~np.ma.getmaskarray(fa)
+    if da.shape != db.shape: return float('inf')
+    sc = float(np.max(np.abs(da[mk]))) if mk.any() else 0.0
+    return float(np.max(np.abs(da - db)[mk]) / max(sc, 1e-300)) if mk.any() else 0.0
+
+def boundary_spectrum_check(chk, ctx, m, p, a, b, ns, pts=12, signs=None):
+    """L3 (ii): the spectrum on the boundary vs just off it"""
+    dadi = ctx['dadi']; name = m['name']; peq = on_boundary(p, a, b)
+    inp = dict(kind='boundary', model=name, params=peq, pair=[a, b], ns=list(ns), pts=pts)
+    try:
+        with np.errstate(all='ignore'):
+            f0 = m['f'](vec(m, peq), ns, pts)
+            offs = [(sg, off_boundary(p, a, b, sg)) for sg in (signs or off_signs(a, b))]
+            fs = [(sg, q, m['f'](vec(m, q), ns, pts)) for sg, q in offs]
+    except Exception as e:
+        chk.fail('%s:boundary:%s' % (name, type(e).__name__), '%s at / next to the boundary %s raises %r' % (name, bkey(a, b), e), inp); return
+    chk.l3((name, 'boundary', a, b))
+    for key, what in spectrum_checks(dadi, f0, ns, pts, resolved(peq)):
+        chk.fail('%s:%s' % (name, key), '%s(%r, %r, %d) (on the boundary %s): %s' % (name, vec(m, peq), ns, pts, bkey(a, b), what), inp)
+    for sg, q, f1 in fs:
+        e = rel_diff(f0, f1)
+        ctx['_bmax'] = max(ctx.get('_bmax', 0.0), e if e == e and e != float('inf') else 0.0)
+        if not e <= BOUNDARY_FS_TOL:
+            chk.fail('%s:boundary:continuity' % name,
+                     '%s%r (ns %r, pts %d) on the boundary %s vs %s = %r (a step of %g off it): the spectra differ by %.3e of the largest entry — '
+                     'a jump, not the effect of the step (the splitting error itself is 1e-4 .. 1e-2)'
+                     % (name, vec(m, peq), list(ns), pts, bkey(a, b), b, q[b], BOUNDARY_EPS, e), inp)
+
+def boundary_scan(chk, ctx, m, rng, d):
+    """every boundary of one model: arguments (all), spectrum (the boundaries at which the calls change shape, and a sample)"""
+    name = m['name']; tier = ctx['tier']
+    bs = boundaries_of(m)
+    m['bflag'] = {}
+    if not bs: return
+    ns_stub = (4,) * d if ploidy_even(m) else (3,) * d
+    ns = tuple(int(x) for x in rng.permutation([3, 4, 5, 6])[:d]) if not ploidy_even(m) else (4,) * d
+    p = boundary_regime(rng, m, d)
+    plain = []
+    for a, b in bs:
+        chk.stat('boundaries')
+        shape = boundary_args_check(chk, ctx, m, p, a, b, ns_stub)
+        if shape is not None:
+            m['bflag'][(a, b)] = shape
+            chk.stat('boundary_branch:%s:%s:%s' % (name, bkey(a, b), shape))
+        else:
+            plain.append((a, b))
+    todo = [(a, b, None) for (a, b) in m['bflag']]
+    if plain:
+        if tier == 'quick': k = 1
+        else: k = len(plain) if d <= 2 else 8
+        for i in list(rng.permutation(len(plain)))[:k]:
+            a, b = plain[int(i)]
+            todo.append((a, b, (1 if rng.random() < 0.5 else -1,) if (tier == 'quick' and len(off_signs(a, b)) == 2) else None))
+    for a, b, signs in todo:
+        boundary_spectrum_check(chk, ctx, m, p, a, b, ns, 12, signs)
+        chk.stat('boundary_spectra')
+    # the clauses about a returned spectrum and the correspondence with the executor, at every boundary where the calls change shape:
+    # on it and on one side of it (three grids, as for every other draw)
+    for j, (a, b) in enumerate(m['bflag']):
+        q, lam = fit_budget(m, p, d, tier)
+        run_model(chk, ctx, m, on_boundary(q, a, b), ns)
+        sg = off_signs(a, b)[j % len(off_signs(a, b))]
+        run_model(chk, ctx, m, off_boundary(q, a, b, sg), ns)
+        chk.stat('boundary_runs', 2)
+
+def k_boundaries(chk, ctx, m):
+    """K: the comparisons in the Lean trace of the model vs the boundaries at which the real calls change shape.  A comparison with a
+    literal 0 on one side and a time or a rate on the other is one-sided inside the documented bounds (never observed to flip)."""
+    driver = ctx['driver']
+    if driver is None or not driver.ok() or 'bflag' not in m: return
+    r = driver.ask('c15.boundary ' + m['name'])
+    if not r.startswith('ok '): return
+    info = json.loads(r[3:])
+    lean = set(); onesided = set()
+    for op, l, rr, ok, n in info['nodes']:
+        if l[0] == 'p' and rr[0] == 'p': lean.add(frozenset([l[1], rr[1]]))
+        elif l[0] == 'p' and rr[0] == 'lit' and rr[1] == 0:
+            (onesided if kind(l[1]) in ('time', 'mig') else lean).add(frozenset([l[1]]))
+        elif rr[0] == 'p' and l[0] == 'lit' and l[1] == 0:
+            (onesided if kind(rr[1]) in ('time', 'mig') else lean).add(frozenset([rr[1]]))
+        else: lean.add(frozenset(['?' + show_expr(l), '?' + show_expr(rr)]))
+    seen = set(frozenset([x for x in ab if x is not None]) for ab in m['bflag'])
+    if lean <= seen and seen <= (lean | onesided): chk.k_ok('c15.boundaries')
+    else:
+        chk.k_bad('c15.boundaries', dict(model=m['name']), sorted(sorted(x) for x in seen), sorted(sorted(x) for x in lean | onesided),
+                  'boundaries at which the real calls change shape vs comparisons of the Lean trace')
+    if not info['ok']:
+        bad = ['%s %s %s' % (show_expr(l), op, show_expr(rr)) for op, l, rr, ok, n in info['nodes'] if not ok]
+        chk.broken.append('model: %s: the two branches of `%s` do not have the same boundary normal form (C15_branch_boundary cannot hold)'
+                          % (m['name'], '`, `'.join(bad[:3])))
+
+def perm_at(chk, ctx, m, perm, args, p, ns, where, pts=12):
+    """L3 (iii): the label-permutation oracle at a given point (a branch boundary): not larger than a splitting error, decreasing
+    with the time step"""
+    dadi = ctx['dadi']; name = m['name']
+    v = vec(m, p); vs = pair_args(args, p) if m['pn'] else None
+    inp = dict(kind='perm_at', model=name, perm=list(perm), args=args, params=p, ns=list(ns), pts=pts, where=where)
+    try:
+        e1 = perm_err(dadi, m, v, vs, ns, perm, pts, TF_DEFAULT)
+        e2 = perm_err(dadi, m, v, vs, ns, perm, pts, TF_DEFAULT / 10) if e1 > 1e-8 else 0.0
+    except Exception as e:
+        chk.fail('%s:perm:%s' % (name, type(e).__name__), 'label permutation %r of %s (%s) raises %r' % (perm, name, where, e), inp); return
+    chk.l3(('perm_at', name, tuple(perm), where))
+    if not e1 <= 2e-2:
+        chk.fail('%s:perm:large' % name, '%s%r (ns %r) vs %s%r relabelled by %r (new population i = old population perm[i]; ns permuted), %s: '
+                 'relative difference %.3e at the default time step — not an operator-splitting error'
+                 % (name, v, list(ns), name, vs, list(perm), where, e1), inp); return
+    if e1 > 1e-8 and not e2 < e1:
+        chk.fail('%s:perm:not_decreasing' % name, 'label-permutation difference of %s under %r, %s, does not shrink with the time step: %.3e at '
+                 'timescale_factor=1e-3, %.3e at 1e-4' % (name, list(perm), where, e1, e2), inp)
+
+def perm_boundary_check(chk, ctx, byname, name, perm, args, rng):
+    """the permutation oracle on the branch boundaries of the model (and on their images under the induced renaming of the
+    parameters), and on a sample of the other equalities"""
+    m = byname.get(name)
+    if m is None or model_dim(m) != len(perm) or not m['pn'] or ploidy_even(m): return
+    d = len(perm); tier = ctx['tier']
+    sigma = {n: (e[1] if e[0] == 'p' else None) for n, e in zip(m['pn'], args)}       # parameter -> the parameter whose value it receives
+    flagged = []
+    for (a, b) in m.get('bflag', {}):
+        if a is None: continue
+        for pr in ((a, b), (sigma.get(a), sigma.get(b))):
+            if pr[0] and pr[1] and pr[0] != pr[1] and pr not in flagged and (pr[1], pr[0]) not in flagged: flagged.append(pr)
+    plain = [ab for ab in boundaries_of(m) if ab[0] is not None and ab not in flagged and (ab[1], ab[0]) not in flagged]
+    k = 1 if tier == 'quick' else (len(plain) if d == 2 else 4)
+    todo = flagged + [plain[int(i)] for i in list(rng.permutation(len(plain)))[:k]]
+    for a, b in todo:
+        p = on_boundary(boundary_regime(rng, m, max(d, 3)), a, b)
+        ns = tuple(int(x) for x in rng.permutation([3, 4, 5, 6])[:d])
+        perm_at(chk, ctx, m, perm, args, p, ns, 'on the boundary %s' % bkey(a, b))
+        chk.stat('perm_at_boundary' + (':branch' if (a, b) in flagged else ''))
 
 # ----------------------------------------------------------------------------------------------- units on the real calls
 def units_params(rng, m, order=None):
@@ -1056,7 +1329,11 @@ def _run(chk, ctx):
                 'steps). Distinct = (model, grid) / (model, wrong length) / nesting pair / (symmetric model, class). Nesting pairs and symmetric models: '
                 'hand table of Model/ModelPairs.lean, parameters of the simpler model drawn as above. Label permutations (three populations): '
                 'sizes in [0.5,2], rates in [0.8,2.5], total duration 0.15..0.3, pts=12, distinct sample sizes. Units: generic (distinct, non-zero) '
-                'parameters, integrators stubbed, families rescaled by distinct powers of two.')
+                'parameters, integrators stubbed, families rescaled by distinct powers of two. Branch boundaries: for every model every pair of '
+                'parameters of one family made exactly equal (one pair at a time; sizes in [0.5,2], rates in [0.5,2.5], |gamma| in [0.3,1], total '
+                'duration 0.3..0.8, three populations 0.15..0.3) and every time/rate/selection parameter at 0, against a step of 1e-9 to each side: '
+                'arguments of the recorded calls (integrators stubbed) on every boundary; spectra (pts=12) on every boundary at which the calls change '
+                'shape and on a sample (quick: one per model); permutation oracle and nesting pairs on the branch boundaries and a sample.')
     chk.unproved = ['finiteness and non-negativity of the returned spectra, the extrap_x tag (L3 on every model, three grids)',
                     'that the real primitives satisfy the laws the nesting theorems assume: zero-duration integration is the identity (L3, exact), '
                     '1*x = x (IEEE)',
@@ -1126,7 +1403,13 @@ def _run(chk, ctx):
         for bid, cnt in sorted(m.get('branches_hit', {}).items()):
             if has_branches(ctx, m): chk.stat('branch:%s:%s' % (m['name'], bid), cnt)
         units_check(chk, ctx, m, rng)
+        tb = time.time()
+        boundary_scan(chk, ctx, m, rng, d)
+        k_boundaries(chk, ctx, m)
+        ctx['_t_boundary'] = ctx.get('_t_boundary', 0.0) + time.time() - tb
     chk.stat('seconds_models', round(time.time() - t_start, 1))
+    chk.stat('seconds_boundaries', round(ctx.get('_t_boundary', 0.0), 1))
+    chk.stat('boundary_max_jump_1e-9', float('%.2g' % ctx.get('_bmax', 0.0)))
     # ---- the law behind the nesting theorems
     zero_duration_checks(chk, ctx, rng, 2 if tier == 'quick' else 8)
     # ---- nesting pairs and symmetric models: table accepted by the model (K), evaluated on the real code (L3)
@@ -1137,11 +1420,13 @@ def _run(chk, ctx):
             for a, b, args, ok in ps:
                 if ok: chk.k_ok('c15.pairs')
                 else: chk.k_bad('c15.pairs', dict(a=a, b=b, args=args), 'hand table', 'nestOK = false', 'nesting')
-                nesting_check(chk, ctx, byname, group, a, b, args, rng, reps=1 if tier == 'quick' else 5)
+                nesting_check(chk, ctx, byname, group, a, b, args, rng, reps=1 if tier == 'quick' else 5,
+                              boundary=1 if tier == 'quick' else 3)
         for a, args_a, path, b, args_b, ok, conds in ask_json(driver, 'c15.branchpairs'):
             if ok: chk.k_ok('c15.branchpairs')
             else: chk.k_bad('c15.branchpairs', dict(a=a, b=b, args=args_a, path=path), 'hand table', 'nestOKAt = false', 'nesting')
-            nesting_check(chk, ctx, byname, 'branch', a, b, args_a, rng, reps=2 if tier == 'quick' else 6, args_b=args_b, conds=conds)
+            nesting_check(chk, ctx, byname, 'branch', a, b, args_a, rng, reps=2 if tier == 'quick' else 6, args_b=args_b, conds=conds,
+                          boundary=1 if tier == 'quick' else 3)
         chk.stat('seconds_nesting', round(time.time() - t1, 1)); t1 = time.time()
         order = list(rng.permutation(len(sym)))
         todo = order if tier == 'thorough' else order[:12]
@@ -1160,7 +1445,11 @@ def _run(chk, ctx):
             else: chk.k_bad('c15.permsym', dict(model=name, perm=perm, args=args), 'hand table', 'permOK = false', 'label permutation')
             if i in pick:
                 perm_check(chk, ctx, byname, name, [int(x) for x in perm], args, rng, draws=1 if tier == 'quick' else 3)
-        chk.stat('seconds_perm', round(time.time() - t1, 1))
+        chk.stat('seconds_perm', round(time.time() - t1, 1)); t1 = time.time()
+        # ---- the same oracle on the branch boundaries (and a sample of the other equalities between parameters of one family)
+        for name, perm, args, ok in psym:
+            perm_boundary_check(chk, ctx, byname, name, [int(x) for x in perm], args, rng)
+        chk.stat('seconds_perm_boundary', round(time.time() - t1, 1))
     else:
         chk.notes.append('driver unavailable: nesting pairs / symmetric models not evaluated')
 
@@ -1194,6 +1483,13 @@ def _replay(chk, ctx, data):
         perm_check(chk, ctx, byname, inp['model'], inp['perm'], inp['args'], rng, draws=3)
     elif k == 'units' and inp.get('model') in byname:
         units_check(chk, ctx, byname[inp['model']], rng)
+    elif k == 'boundary' and inp.get('model') in byname:
+        m = byname[inp['model']]; a, b = inp['pair']; d = model_dim(m)
+        if d is None: _run(chk, ctx); return
+        boundary_args_check(chk, ctx, m, inp['params'], a, b, (4,) * d if ploidy_even(m) else (3,) * d)
+        boundary_spectrum_check(chk, ctx, m, inp['params'], a, b, tuple(inp['ns']), inp['pts'])
+    elif k == 'perm_at' and inp.get('model') in byname:
+        perm_at(chk, ctx, byname[inp['model']], inp['perm'], inp['args'], inp['params'], tuple(inp['ns']), inp.get('where', ''), inp['pts'])
     else:
         _run(chk, ctx)
 
